@@ -87,6 +87,11 @@ def specRows (c : Cat) (ids : List String) : List Row :=
 def specTmpls (c : Cat) (mids : List String) : List (String × String) :=
   mids.filterMap fun i => (c.tmpls i).map fun s => (i, s)
 
+/-- Do two files hold the same task_store data (over the IDs of the case)? -/
+def storeEq (ids mids : List String) (a b : Store) : Bool :=
+  ids.all (fun i => a.tasks i == b.tasks i) &&
+  mids.all (fun m => a.tmpls m == b.tmpls m && ids.all (fun i => a.assoc m i == b.assoc m i))
+
 /-- A pending expectation of the spec for the next listing. -/
 structure Pending where
   cands : List Cat := []                       -- catalogues the spec allows (first match is adopted)
@@ -213,6 +218,7 @@ def judge (_id : String) (lines : Array String) : Verdict := Id.run do
         | _ => (st.ids, st.mids)
       st := { st with ids := ids, mids := mids, fail := fail }
       -- model
+      let wBefore := st.w
       let (w', mresp) := step Variant.fixed env fail cut st.w op
       if op != .restart then
         if mresp != resp then st := st.mm s!"answer of {l}: model {mresp.str}"
@@ -230,6 +236,11 @@ def judge (_id : String) (lines : Array String) : Verdict := Id.run do
         match cut with
         | none =>
           match op, resp with
+          | .tdelete id, _ =>
+            -- deleting a template that tasks were created from orphans them (recorded deviation, latent state)
+            if ids.any (fun i => match c.tasks i with | some t => t.tmpl == id | none => false) then
+              { cands := [], what := l, devModel := some "template-delete-orphans-tasks" }
+            else { cands := [specStep env fail c op resp], what := l }
           | .tupdate id _ _, .fail =>
             { cands := [c], tup := tup, what := l,
               freeExec := ids.filter (fun i => match c.tasks i with | some t => t.tmpl == id | none => false),
@@ -240,8 +251,13 @@ def judge (_id : String) (lines : Array String) : Verdict := Id.run do
         | some k =>
           -- crash: the client got no answer; the request took effect or it did not, then the process restarted
           let eff := if resp = .ok || isDev then [rs (accept env fail c op)] else []
-          { cands := eff ++ [rs c], what := l,
-            devModel := if multi && 0 < k && k < ntxObs.getD 0 then some "crash-between-transactions" else none }
+          -- the crash point is INSIDE the request when the file is neither the one before nor the one after it
+          let w1 := (handle Variant.fixed env fail (beginReq wBefore cut) op).1
+          let file := w1.snap.getD w1.store
+          let inside := multi && 0 < k && k < ntxObs.getD 0 &&
+            !storeEq ids mids file wBefore.store && !storeEq ids mids file w1.store
+          if inside then { cands := [], what := l, devModel := some "crash-between-transactions" }
+          else { cands := eff ++ [rs c], what := l }
       st := { st with pend := some p }
       if op == .restart then st := { st with restarts := st.restarts + 1 }
       else if resp = .ok then st := { st with accepted := st.accepted + 1 }
